@@ -242,7 +242,11 @@ def _time_allow_key(ctx: Ctx, f: FunctionInfo) -> str:
         # a module-level helper of the recorder module that only the recorder module itself calls (e.g. the default column table)
         callers = [g for g in ctx.prog.functions.values() for c in walk_local(g.node, include_nested=True)
                    if isinstance(c, ast.Call) and call_name(c) == top.name]
-        if callers and all(g.module is rec.module for g in callers):
+        # ... or that is only mentioned (as a column extractor in a table of the recorder module) and never imported elsewhere
+        mentioned_here = any(isinstance(x, ast.Name) and x.id == top.name and isinstance(x.ctx, ast.Load) for x in ast.walk(rec.module.tree))
+        imported_elsewhere = any(mod is not rec.module and any(isinstance(x, ast.ImportFrom) and any(a.name == top.name for a in x.names) for x in ast.walk(mod.tree))
+                                 for mod in ctx.prog.modules.values())
+        if (callers and all(g.module is rec.module for g in callers)) or (not callers and mentioned_here and not imported_elsewhere):
             return "geneticengine.evaluation.recorder:CSVSearchRecorder.__init__"
     return base
 
@@ -304,6 +308,27 @@ def rule_r4(ctx: Ctx) -> None:
     ctx.floor("C08.R4", n, 3, "process-global write candidates / defaults")
 
 
+def _pure_numeric(f: FunctionInfo) -> bool:
+    a = f.node.args
+    params = a.posonlyargs + a.args + a.kwonlyargs
+    if f.cls is not None or a.vararg or a.kwarg or not params:
+        return False
+    if not all(p.annotation is not None and norm(p.annotation) in ("int", "float", "bool", "str") for p in params):
+        return False
+    names = {p.arg for p in params}
+    for nd in walk_local(f.node, include_nested=True):
+        if isinstance(nd, ast.Name) and isinstance(nd.ctx, ast.Load) and nd.id not in names \
+                and nd.id not in ("round", "abs", "int", "float", "min", "max", "pow", "divmod", "len", "math", "log10", "log2", "log", "sqrt", "floor", "ceil", "isqrt"):
+            local = any(isinstance(x, ast.Name) and isinstance(x.ctx, ast.Store) and x.id == nd.id for x in walk_local(f.node))
+            if not local:
+                return False
+        if isinstance(nd, (ast.Attribute,)) and not (isinstance(nd.value, ast.Name) and nd.value.id == "math"):
+            return False
+        if isinstance(nd, (ast.Global, ast.Nonlocal, ast.Yield, ast.YieldFrom, ast.Subscript)):
+            return False
+    return True
+
+
 def process_state_rule(ctx: Ctx, rid: str, module_prefixes: tuple = ()) -> int:
     """No function (optionally: of the given modules) keeps state beyond a call: module-level / class-level writes,
     memoisation decorators, stateful default arguments.  Shared by C01/C02 (declaration readers must not cache),
@@ -341,7 +366,8 @@ def process_state_rule(ctx: Ctx, rid: str, module_prefixes: tuple = ()) -> int:
                     a0 = nd.args[0]
                     if not (isinstance(a0, ast.Name) and a0.id == "self"):
                         tt = ctx.types.of(m, a0)
-                        if tt.k in ("typetype", "any") or (tt.k == "instance" and tt.fn == "builtins.type"):
+                        # an untyped first argument is usually an instance (labels stored on a node); only a value known to be a class counts
+                        if tt.k == "typetype" or (tt.k == "instance" and tt.fn == "builtins.type"):
                             hit = f"setattr on a class object ({norm(a0)})"
             if hit is None:
                 continue
@@ -357,6 +383,11 @@ def process_state_rule(ctx: Ctx, rid: str, module_prefixes: tuple = ()) -> int:
             dn = dotted(d) or dotted(getattr(d, "func", d)) or ""
             if dn.split(".")[-1] in ("lru_cache", "cache", "cached_property"):
                 n += 1
+                if _pure_numeric(f):
+                    # a function of numbers only (all parameters annotated int / float / bool / str, body built from arithmetic and math / builtins):
+                    # its cache can never go stale - the key is the complete input and nothing else is read
+                    ctx.ob(rid, f, d, f"memoised with {dn}: a pure function of numbers", True, "")
+                    continue
                 ctx.ob(rid, f, d, f"memoised with {dn}", False,
                        f"@{dn} keeps results for the lifetime of the process: values derived from class declarations go stale when "
                        f"a grammar is re-declared, and a second search does not start from the same state as the first")
